@@ -761,6 +761,7 @@ def run_schedule(scn, policy=None, schedule=None):
     sim.injected = []
     sim.pp_calls = {}
     sim.reads = {}
+    sim.tag_reads = {}
     sim.run_index = 0
     sim.workers_set = set()
     storage = Storage()
@@ -779,17 +780,20 @@ def run_schedule(scn, policy=None, schedule=None):
             c = sim.reads.get(name, 0) + 1
             sim.reads[name] = c
             sim.ev('read', name, tag, int(ids[0]) if len(ids) else -1, int(len(ids)))
-            for f in sim.faults:
-                if f['kind'] == 'storage_read_error' and name == 'r%dacc%d' % (f['run'], f['thread']) and f['nth'] == c and not f.get('fired'):
-                    f['fired'] = True
-                    sim.ev('FAULT', name, 'storage_read_error')
-                    e = InjectedIOError('injected read error in %s' % name)
-                    sim.injected.append(e)
-                    raise e
+            tc = sim.tag_reads.get(tag, 0) + 1
+            sim.tag_reads[tag] = tc
+            _maybe_read_fault(sim, tag, tc, name)
             st = scn.get('stall')
             if st and name.endswith('acc%d' % st['thread']) and c == st['after_read']:
                 sim.stalled[name] = sim.decisions + st['decisions']
                 sim.ev('STALL', name, st['decisions'])
+        elif kind == 'samples' and name == 'main' and storage.last_sub and not _is_trace_size_probe():
+            # a batch of a set read by the thread that called run() (an implementation may accumulate small sets without threads): the read
+            # fault is tied to the SET being read, not to the identity of the reading thread
+            sim.ev('read', name, tag, int(ids[0]) if len(ids) else -1, int(len(ids)))
+            tc = sim.tag_reads.get(tag, 0) + 1
+            sim.tag_reads[tag] = tc
+            _maybe_read_fault(sim, tag, tc, name)
         sim.yield_point(name, 'fetch ' + kind)
     storage.on_fetch = on_fetch
     if scn.get('rule_flip'):
@@ -881,6 +885,28 @@ def acc_counts(tt):
         return [int(a.processed_traces) for a in accs]
     except Exception:
         return None
+
+
+def _is_trace_size_probe():
+    """Sample reads made while the container measures its trace size / derives its batch size (before any batch) are not batch reads."""
+    f = sys._getframe(2)
+    for _ in range(60):
+        if f is None:
+            return False
+        if 'trace_size' in f.f_code.co_name or 'batch_size' in f.f_code.co_name:
+            return True
+        f = f.f_back
+    return False
+
+
+def _maybe_read_fault(sim, tag, count, name):
+    for f in sim.faults:
+        if f['kind'] == 'storage_read_error' and tag == '%s%d' % ('A' if f['thread'] == 1 else 'B', f['run']) and f['nth'] == count and not f.get('fired'):
+            f['fired'] = True
+            sim.ev('FAULT', name, 'storage_read_error')
+            e = InjectedIOError('injected read error in %s' % name)
+            sim.injected.append(e)
+            raise e
 
 
 def viol(oracle, sig, detail):
